@@ -64,6 +64,13 @@ impl Wake for Flag {
     }
 }
 
+/// The one place where a Flag becomes a Waker: `Waker::will_wake` compares vtable addresses, and a
+/// generic conversion instantiated in several codegen units may get several vtables.
+#[inline(never)]
+pub fn mk_waker(f: &Arc<Flag>) -> Waker {
+    f.clone().into()
+}
+
 struct FlagFuture<'a>(&'a Arc<Flag>);
 impl Future for FlagFuture<'_> {
     type Output = ();
@@ -312,6 +319,11 @@ pub enum Act {
     RepollWriterOtherTask,
     /// same for the parked read
     RepollReaderOtherTask,
+    /// The given actions run on separate real threads (at most one that polls the connection - a
+    /// Deliver / Spurious / Tick -, one on the write half, one on the read half), interleaved at the
+    /// granularity of the critical sections of the locks they share, in the order `sched` dictates
+    /// (see solo::sched). Afterwards everything woken runs to quiescence as after any other action.
+    Par { ops: Vec<Act>, sched: Vec<u8> },
 }
 
 #[derive(Clone, Debug, PartialEq)]
@@ -355,6 +367,8 @@ pub struct StepRecord {
     pub w_woken: bool,
     pub r_woken: bool,
     pub clock_advanced_us: u64,
+    /// decisions the thread scheduler took in a `Par` step
+    pub sched: Option<super::sched::SchedOutcome>,
 }
 
 #[derive(Clone, Copy, Debug, PartialEq, Eq)]
@@ -755,7 +769,7 @@ impl World {
             return;
         }
         self.d.take();
-        let waker: Waker = self.d.clone().into();
+        let waker: Waker = mk_waker(&self.d);
         let mut cx = Self::cx(&waker);
         rec.d_polls += 1;
         let r = std::panic::catch_unwind(std::panic::AssertUnwindSafe(|| self.ep.poll_once(&mut cx)));
@@ -778,7 +792,7 @@ impl World {
         let Some(wh) = self.writer.as_mut() else { return };
         self.w.take();
         let data: Vec<u8> = (0..n as u64).map(|i| coded(self.written + i, SALT_EP)).collect();
-        let waker: Waker = self.w.clone().into();
+        let waker: Waker = mk_waker(&self.w);
         let mut cx = Self::cx(&waker);
         match Pin::new(wh).poll_write(&mut cx, &data) {
             Poll::Ready(Ok(k)) => {
@@ -801,7 +815,7 @@ impl World {
     fn app_flush(&mut self, shutdown: bool, rec: &mut StepRecord) {
         let Some(wh) = self.writer.as_mut() else { return };
         self.w.take();
-        let waker: Waker = self.w.clone().into();
+        let waker: Waker = mk_waker(&self.w);
         let mut cx = Self::cx(&waker);
         let r = if shutdown {
             self.shutdown_called = true;
@@ -830,7 +844,7 @@ impl World {
     fn app_read(&mut self, n: usize, rec: &mut StepRecord) {
         let Some(rh) = self.reader.as_mut() else { return };
         self.r.take();
-        let waker: Waker = self.r.clone().into();
+        let waker: Waker = mk_waker(&self.r);
         let mut cx = Self::cx(&waker);
         let mut buf = vec![0u8; n.max(1)];
         let mut rb = ReadBuf::new(&mut buf);
@@ -859,6 +873,221 @@ impl World {
             Poll::Pending => {
                 self.r_parked = Parked::Read(n);
                 rec.app.push(("read", AppRes::Pending));
+            }
+        }
+    }
+
+    /// The concurrent part of a `Par` step: one real thread per operation under the controlled scheduler.
+    fn run_parallel(&mut self, ops: &[Act], sched: &[u8], rec: &mut StepRecord) {
+        use super::sched::{controlled, Controller};
+        enum PRes {
+            D(Option<Poll<Result<(), String>>>),
+            Write(usize, Poll<Result<usize, String>>),
+            Flush(bool, Poll<Result<(), String>>),
+            Read(usize, Poll<Result<Vec<u8>, String>>),
+            DroppedWriter,
+            DroppedReader,
+        }
+        let handle = tokio::runtime::Handle::current();
+        let ctrl = Controller::new(ops.len(), sched);
+        // other-task re-polls come with a new waker identity
+        for o in ops {
+            match o {
+                Act::RepollWriterOtherTask => self.w = Arc::new(Flag::default()),
+                Act::RepollReaderOtherTask => self.r = Arc::new(Flag::default()),
+                _ => {}
+            }
+        }
+        let written = self.written;
+        let (w_parked, r_parked) = (self.w_parked, self.r_parked);
+        let done = self.done.is_some();
+        let (dflag, wflag, rflag) = (self.d.clone(), self.w.clone(), self.r.clone());
+        let mut ep_slot = Some(&mut self.ep);
+        let mut writer_slot = Some(&mut self.writer);
+        let mut reader_slot = Some(&mut self.reader);
+        let mut slots: Vec<Option<Result<PRes, String>>> = (0..ops.len()).map(|_| None).collect();
+        let outcome = {
+            let mut jobs: Vec<Box<dyn FnOnce() + Send + '_>> = vec![];
+            for ((tid, o), slot) in ops.iter().enumerate().zip(slots.iter_mut()) {
+                let ctrl = ctrl.clone();
+                let handle = handle.clone();
+                match o {
+                    Act::Deliver(_) | Act::Spurious | Act::Tick => {
+                        let ep = ep_slot.take().expect("one connection op");
+                        let flag = dflag.clone();
+                        jobs.push(Box::new(move || {
+                            *slot = Some(controlled(&ctrl, tid, &handle, || {
+                                if done {
+                                    return PRes::D(None);
+                                }
+                                flag.take();
+                                let waker: Waker = mk_waker(&flag);
+                                let mut cx = Context::from_waker(&waker);
+                                PRes::D(ep.poll_once(&mut cx).map(|p| p.map(|r| r.map_err(|e| e.to_string()))))
+                            }));
+                        }));
+                    }
+                    Act::Write(_) | Act::Flush | Act::Shutdown | Act::RepollWriterOtherTask | Act::DropWriter => {
+                        let wslot = writer_slot.take().expect("one writer op");
+                        let flag = wflag.clone();
+                        let kind = match o {
+                            Act::Write(n) => Parked::Write(*n),
+                            Act::Flush => Parked::Flush,
+                            Act::Shutdown => Parked::Shutdown,
+                            Act::DropWriter => Parked::No,
+                            _ => w_parked,
+                        };
+                        jobs.push(Box::new(move || {
+                            *slot = Some(controlled(&ctrl, tid, &handle, || {
+                                flag.take();
+                                let waker: Waker = mk_waker(&flag);
+                                let mut cx = Context::from_waker(&waker);
+                                match kind {
+                                    Parked::No => {
+                                        *wslot = None;
+                                        PRes::DroppedWriter
+                                    }
+                                    Parked::Write(n) => {
+                                        let data: Vec<u8> = (0..n as u64).map(|i| coded(written + i, SALT_EP)).collect();
+                                        let wh = wslot.as_mut().expect("writer");
+                                        PRes::Write(n, Pin::new(wh).poll_write(&mut cx, &data).map(|r| r.map_err(|e| e.to_string())))
+                                    }
+                                    Parked::Flush => {
+                                        let wh = wslot.as_mut().expect("writer");
+                                        PRes::Flush(false, Pin::new(wh).poll_flush(&mut cx).map(|r| r.map_err(|e| e.to_string())))
+                                    }
+                                    Parked::Shutdown => {
+                                        let wh = wslot.as_mut().expect("writer");
+                                        PRes::Flush(true, Pin::new(wh).poll_shutdown(&mut cx).map(|r| r.map_err(|e| e.to_string())))
+                                    }
+                                    Parked::Read(_) => unreachable!(),
+                                }
+                            }));
+                        }));
+                    }
+                    Act::Read(_) | Act::RepollReaderOtherTask | Act::DropReader => {
+                        let rslot = reader_slot.take().expect("one reader op");
+                        let flag = rflag.clone();
+                        let n = match o {
+                            Act::Read(n) => Some(*n),
+                            Act::DropReader => None,
+                            _ => match r_parked {
+                                Parked::Read(n) => Some(n),
+                                _ => Some(1),
+                            },
+                        };
+                        jobs.push(Box::new(move || {
+                            *slot = Some(controlled(&ctrl, tid, &handle, || {
+                                flag.take();
+                                let waker: Waker = mk_waker(&flag);
+                                let mut cx = Context::from_waker(&waker);
+                                match n {
+                                    None => {
+                                        *rslot = None;
+                                        PRes::DroppedReader
+                                    }
+                                    Some(n) => {
+                                        let rh = rslot.as_mut().expect("reader");
+                                        let mut buf = vec![0u8; n.max(1)];
+                                        let mut rb = ReadBuf::new(&mut buf);
+                                        let r = Pin::new(rh).poll_read(&mut cx, &mut rb);
+                                        PRes::Read(n, r.map(|r| r.map(|()| rb.filled().to_vec()).map_err(|e| e.to_string())))
+                                    }
+                                }
+                            }));
+                        }));
+                    }
+                    _ => unreachable!("checked by enabled()"),
+                }
+            }
+            super::sched::run_jobs(jobs, || ctrl.drive())
+        };
+        let results: Vec<Result<PRes, String>> = slots.into_iter().map(|s| s.unwrap_or_else(|| Err("thread produced no result".into()))).collect();
+        if let Some(d) = &outcome.deadlock {
+            rec.panicked = Some(format!("deadlock between the connection and the stream halves: {d}"));
+        }
+        rec.sched = Some(outcome);
+        // bookkeeping, exactly as for the sequential actions
+        for r in results {
+            match r {
+                Err(p) => {
+                    if p != "verif-sched-abort" {
+                        rec.panicked = Some(p.clone());
+                        self.done = Some(Err(format!("panic: {p}")));
+                    }
+                }
+                Ok(PRes::D(r)) => {
+                    rec.d_polls += 1;
+                    if let Some(Poll::Ready(res)) = r {
+                        rec.d_result = Some(res.clone());
+                        self.done = Some(res);
+                    }
+                }
+                Ok(PRes::Write(n, r)) => match r {
+                    Poll::Ready(Ok(k)) => {
+                        self.written += k as u64;
+                        self.w_parked = Parked::No;
+                        rec.app.push(("write", AppRes::Ok(k)));
+                    }
+                    Poll::Ready(Err(e)) => {
+                        self.w_parked = Parked::No;
+                        self.writer_err = Some(e.clone());
+                        rec.app.push(("write", AppRes::Err(e)));
+                    }
+                    Poll::Pending => {
+                        self.w_parked = Parked::Write(n);
+                        rec.app.push(("write", AppRes::Pending));
+                    }
+                },
+                Ok(PRes::Flush(shutdown, r)) => {
+                    if shutdown {
+                        self.shutdown_called = true;
+                    }
+                    let name = if shutdown { "shutdown" } else { "flush" };
+                    match r {
+                        Poll::Ready(Ok(())) => {
+                            self.w_parked = Parked::No;
+                            rec.app.push((name, AppRes::Ok(0)));
+                        }
+                        Poll::Ready(Err(e)) => {
+                            self.w_parked = Parked::No;
+                            self.writer_err = Some(e.clone());
+                            rec.app.push((name, AppRes::Err(e)));
+                        }
+                        Poll::Pending => {
+                            self.w_parked = if shutdown { Parked::Shutdown } else { Parked::Flush };
+                            rec.app.push((name, AppRes::Pending));
+                        }
+                    }
+                }
+                Ok(PRes::Read(n, r)) => match r {
+                    Poll::Ready(Ok(bytes)) => {
+                        self.r_parked = Parked::No;
+                        if bytes.is_empty() {
+                            self.reader_eof = true;
+                            rec.app.push(("read", AppRes::Eof));
+                        } else {
+                            for (i, byte) in bytes.iter().enumerate() {
+                                if *byte != coded(self.read + i as u64, SALT_PEER) {
+                                    self.read_ok = false;
+                                }
+                            }
+                            self.read += bytes.len() as u64;
+                            rec.app.push(("read", AppRes::Ok(bytes.len())));
+                        }
+                    }
+                    Poll::Ready(Err(e)) => {
+                        self.r_parked = Parked::No;
+                        self.reader_err = Some(e.clone());
+                        rec.app.push(("read", AppRes::Err(e)));
+                    }
+                    Poll::Pending => {
+                        self.r_parked = Parked::Read(n);
+                        rec.app.push(("read", AppRes::Pending));
+                    }
+                },
+                Ok(PRes::DroppedWriter) => self.w_parked = Parked::No,
+                Ok(PRes::DroppedReader) => self.r_parked = Parked::No,
             }
         }
     }
@@ -927,6 +1156,25 @@ impl World {
             Act::TransportPendingOnce => !self.tr.lock().pending_once && self.done.is_none(),
             Act::RepollWriterOtherTask => self.writer.is_some() && self.w_parked != Parked::No,
             Act::RepollReaderOtherTask => self.reader.is_some() && self.r_parked != Parked::No,
+            Act::Par { ops, .. } => {
+                let role = |a: &Act| match a {
+                    Act::Deliver(_) | Act::Spurious | Act::Tick => Some(0),
+                    Act::Write(_) | Act::Flush | Act::Shutdown | Act::DropWriter | Act::RepollWriterOtherTask => Some(1),
+                    Act::Read(_) | Act::DropReader | Act::RepollReaderOtherTask => Some(2),
+                    _ => None,
+                };
+                let mut seen = [false; 3];
+                for o in ops {
+                    match role(o) {
+                        Some(r) if !seen[r] => seen[r] = true,
+                        _ => return false,
+                    }
+                    if !self.enabled(o) {
+                        return false;
+                    }
+                }
+                ops.len() >= 2
+            }
         }
     }
 
@@ -1002,6 +1250,28 @@ impl World {
                 if let Parked::Read(n) = self.r_parked {
                     self.app_read(n, &mut rec);
                 }
+            }
+            Act::Par { ops, sched } => {
+                // sequential preparation: datagrams are queued, the clock moves to the timer
+                for o in ops {
+                    match o {
+                        Act::Deliver(p) => {
+                            if !self.inject(p, &mut rec) {
+                                return false;
+                            }
+                        }
+                        Act::Tick => {
+                            if !self.d.is_set() {
+                                let d = self.d.clone();
+                                if tokio::time::timeout(Duration::from_secs(120), FlagFuture(&d)).await.is_err() {
+                                    return false;
+                                }
+                            }
+                        }
+                        _ => {}
+                    }
+                }
+                self.run_parallel(ops, sched, &mut rec);
             }
         }
         self.quiesce(&mut rec);
@@ -1126,11 +1396,11 @@ impl World {
             Some(false) => 2,
         };
         let ww = self.writer.as_ref().map(|h| {
-            let cur: Waker = self.w.clone().into();
+            let cur: Waker = mk_waker(&self.w);
             code(h.verif_writer_waker_wakes(&cur))
         });
         let rw = self.reader.as_ref().map(|h| {
-            let cur: Waker = self.r.clone().into();
+            let cur: Waker = mk_waker(&self.r);
             code(h.verif_reader_waker_wakes(&cur))
         });
         (ww.unwrap_or(0), rw.unwrap_or(0))
